@@ -34,6 +34,7 @@ SEED_EXPECT = {
     "C10-3": "R10.7", "C19-3": "R19.2d", "C19-4": "R19.3a",
     "C13-5": "R13.5", "C12-5": "R12.5", "C12-6": "R12.2", "C06-5": "R6.1", "C08-5": "R8.9", "C08-6": "R8.8", "C17-5": "R17.5", "C17-6": "R17.5",
     "C14-4": "R14.3", "C14-5": "R14.6", "C11-3": "R11.9", "C11-4": "R11.9", "C05-5": "R5.8", "C05-6": "R5.7",
+    "C20-5": "R20.4", "C20-6": "R20.5", "C03-5": "R3.5", "C02-5": "R2.1",
     "C03-3": "R3.6", "C03-4": "R3.6", "C11-1": "R11.7", "C11-2": "R11.6",
 }
 byprop = {}
